@@ -308,7 +308,7 @@ fn cmd_run(get: &dyn Fn(&str) -> Option<String>) -> i32 {
     let det_samples: u64 = get("--determinism").map(|s| s.parse().unwrap()).unwrap_or(if tier == Tier::Quick { 64 } else { 1024 });
 
     // oracle / workload self-validation (a failure is a harness error, never a violation)
-    if ["C03", "C14", "C15", "C08R", "C11R", "C06R", "C13R", "C07S", "C05R", "C09R"].contains(&check.id()) {
+    if ["C03", "C14", "C15", "C08R", "C11R", "C06R", "C13R", "C07S", "C05R", "C09R", "C20A"].contains(&check.id()) {
         for p in [3u32, 5, 7] {
             if let Err(e) = rules::validate_pool(p, 200, seed) {
                 eprintln!("HARNESS ERROR: {e}");
